@@ -145,8 +145,8 @@ pub fn run(id: &str, tier: &str) -> i32 {
     }
     // 2c. bounded-exhaustive shape table (operation kind x operand/receiver shape x statement context x configuration)
     if matches!(id, "C02" | "C03" | "C04" | "C05" | "C06" | "C08" | "C09" | "C12" | "C15") && std::env::var("VERIF_NO_ENUM").is_err() {
-        let step = if tier == "thorough" { 1 } else { 3 };
-        let offset = (seed % 3) as usize;
+        let step = if tier == "thorough" { 1 } else { 6 };
+        let offset = (seed % 6) as usize;
         let cases = crate::enumerate::cases(step, if step == 1 { 0 } else { offset });
         report.stats.extra.insert("shape_table".into(), serde_json::json!({"size": crate::enumerate::table_size(), "evaluated": cases.len(), "complete": step == 1}));
         if step == 1 {
